@@ -229,6 +229,21 @@ class Checker:
                 if not isinstance(props, dict):
                     rep.inconclusive("parameter struct source is not a plain object")
                     continue
+                # members contributed through allOf (a flattened struct, possibly behind a
+                # newtype) are members of the parameter struct like any other
+                props = dict(props)
+                all_required = set(root.get("required", []))
+
+                def merge_allof(node, depth=0):
+                    for sub in (node.get("allOf") or []) if isinstance(node, dict) and depth < 8 else []:
+                        sub, _ = sctx.resolve(sub)
+                        if isinstance(sub, dict):
+                            for k, v in (sub.get("properties") or {}).items():
+                                props.setdefault(k, v)
+                            all_required.update(sub.get("required", []))
+                            merge_allof(sub, depth + 1)
+
+                merge_allof(root)
                 if kind == "headers":
                     try:
                         published = op["responses"][site["status"]].get("headers", {})
@@ -238,7 +253,7 @@ class Checker:
                     members = {k.lower(): v for k, v in published.items()}
                 else:
                     members = {p["name"]: p for p in op.get("parameters", []) if p.get("in") == kind}
-                req = set(root.get("required", []))
+                req = all_required
                 for name, sub in props.items():
                     m = members.get(name.lower() if kind == "headers" else name)
                     wbase = dict(ident, site=site, member=name)
@@ -326,6 +341,10 @@ def run_lines(lines, rep, seed, n_inst):
                        {"program": line["kind"], "api": line.get("api"), "id": line.get("id"),
                         "missing": sorted(set(r for _, r in dangling))[:10], "first_at": dangling[0][0]})
         for e in line["entries"]:
+            if "registration_failed" in e:
+                ck.violate("C08:schema-not-published:registration-of-a-supported-type-failed",
+                           {"program": line["kind"], "api": line.get("api"), "entry": e["name"], "why": e["registration_failed"][:300]})
+                continue
             if line["kind"] == "dyn":
                 ident = {"program": "dyn", "id": line["id"], "entry": e["name"], "raw": line["raw"]}
                 if rep.want_sample() and e["name"] == "DynRoot":
